@@ -365,7 +365,10 @@ class ObjMixin:
                     idx = i2.as_long()
                 else:
                     if isinstance(obj, (list, tuple)):
-                        return SArr.from_list(list(obj), kind='list').py_getitem(self, idx)
+                        from .values import is_num
+                        if all(is_num(x) or isinstance(x, (bool, z3.BoolRef)) for x in obj):
+                            return SArr.from_list(list(obj), kind='list').py_getitem(self, idx)
+                        return self.fork_index(obj, idx)
                     raise Unsupported('symbolic index into concrete sequence')
             if isinstance(idx, bool):
                 idx = int(idx)
@@ -388,6 +391,22 @@ class ObjMixin:
         if isinstance(obj, (EnumMember, int, Fraction, bool)) or is_sym(obj):
             self.raise_('TypeError', f"'{type(obj).__name__}' object is not subscriptable")
         raise Unsupported(f'subscript on {type(obj).__name__}')
+
+    def fork_index(self, seq, idx):
+        """seq[idx] for a concrete sequence of non-mergeable elements and a symbolic index: one path
+        per feasible position (python negative indices included), plus the IndexError path."""
+        n = len(seq)
+        alts = list(range(-n, n)) + ['out']
+
+        def cond(a):
+            if a == 'out':
+                return z3.Or(idx >= n, idx < -n)
+            return idx == a
+        c = self.ctx.choose(len(alts), lambda i: self.ctx.feasible(cond(alts[i])))
+        self.ctx.assume(cond(alts[c]))
+        if alts[c] == 'out':
+            self.raise_('IndexError', 'index out of range')
+        return seq[alts[c]]
 
     def setitem(self, obj, idx, val):
         self.effect()
